@@ -138,16 +138,89 @@ def lookup_predicates(z, sym):
     yield ('smiles-bracket-atom', sym, ok)
 
 
+def variant_predicates(z, sym):
+    """Query*/Dynamic* variants reachable by symbol and number, reporting the right symbol and number."""
+    from chython.periodictable import DynamicElement, QueryElement, Element
+    for base, name in ((DynamicElement, 'dynamic'), (QueryElement, 'query')):
+        try:
+            c = base.from_symbol(sym)
+            ok = c.from_atomic_number(z) is c
+            if name == 'dynamic':
+                inst = DynamicElement.from_atom(Element.from_symbol(sym)())
+            else:
+                inst = c()
+            ok = ok and inst.atomic_symbol == sym and inst.atomic_number == z
+        except Exception:
+            ok = False
+        yield (f'{name}-variant-lookup', sym, ok)
+
+
+_EXT = {}
+
+
+def _ext():
+    if not _EXT:
+        from ..gen import pyx2py
+        pyx2py.install()
+        _EXT['ok'] = True
+    return True
+
+
+def pack_matcher_predicates(sym):
+    """Every tabulated isotope through the REAL pack -> unpack and through both REAL matchers (translated .pyx)."""
+    from chython import MoleculeContainer, QueryContainer
+    from chython.periodictable import Element, QueryElement
+    _ext()
+    cls = Element.from_symbol(sym)
+    qcls = QueryElement.from_symbol(sym)
+    dist = cls.isotopes_distribution.fget(None)
+    for iso in list(dist) + [None]:
+        m = MoleculeContainer()
+        m.add_atom(cls(iso), 1, _skip_calculation=True)
+        m.calc_labels()
+        m._atoms[1]._implicit_hydrogens = 0
+        try:
+            u = MoleculeContainer.unpack(m.pack())
+            ok = u.atom(1).isotope == iso and u.atom(1).atomic_number == cls.atomic_number.fget(None)
+        except Exception:
+            ok = False
+        yield ('pack-roundtrip-isotope', f'{sym}:{iso}', ok)
+        # matcher: a query without isotope finds the labelled atom; the same isotope finds it; another does not
+        for qiso, expect in [(None, True), (iso, True)] + [(j, j == iso) for j in list(dist)[:2] if iso is not None]:
+            q = QueryContainer(f'[{qiso or ""}{sym}]')
+            q.add_atom(qcls(qiso) if qiso else qcls(), 1)
+            try:
+                acc = len(list(q.get_mapping(m))) > 0
+                ref = len(list(q.get_mapping(m, _cython=False))) > 0
+                ok = acc == ref == expect
+            except Exception:
+                ok = False
+            yield ('matcher-finds-isotope', f'{sym}:{iso}:query={qiso}', ok)
+
+
 def correspond(ctx):
     """Exhaustive evaluation on the live classes. A false predicate *is* a failing input for the property."""
     from chython.periodictable import Element
-    ctx.cov['programs'] = 10  # from_symbol, from_atomic_number, smiles('[X]'), atomic_mass, isotope setter, charge/radical setters, _compiled_valence_rules, Query*, Dynamic*, pyx tables
+    ctx.cov['programs'] = 16  # DynamicElement/QueryElement.from_symbol/from_atomic_number/from_atom, MoleculeContainer.pack/unpack, get_mapping (accelerated + reference), from_symbol, from_atomic_number, smiles('[X]'), atomic_mass, isotope setter, charge/radical setters, _compiled_valence_rules, Query*, Dynamic*, pyx tables
     for z, sym in iupac():
         for pred, detail, ok in lookup_predicates(z, sym):
             ctx.count((pred, detail))
             ctx.dist(pred)
             if not ok:
                 ctx.fail(sig(pred, detail), f'{pred} fails for {detail} (Z={z})', {'predicate': pred, 'symbol': sym, 'z': z, 'detail': detail})
+        for pred, detail, ok in variant_predicates(z, sym):
+            ctx.count((pred, detail))
+            ctx.dist(pred)
+            if not ok:
+                ctx.fail(sig(pred, detail), f'{pred} fails for {detail} (Z={z})', {'predicate': pred, 'symbol': sym, 'z': z, 'detail': detail})
+        try:
+            for pred, detail, ok in pack_matcher_predicates(sym):
+                ctx.count((pred, detail))
+                ctx.dist(pred)
+                if not ok:
+                    ctx.fail(sig(pred, detail), f'{pred} fails for {detail}', {'predicate': pred, 'symbol': sym, 'z': z, 'detail': detail})
+        except Exception as e:  # the element itself is unreachable: already reported by the lookup predicates
+            ctx.dist('pack-matcher-skipped:' + type(e).__name__)
     std = dict(iupac())
     syms = []
     for c in Element.__subclasses__():
@@ -182,6 +255,13 @@ def probe(inp):
         z = inp.get('z') or dict((s, z) for z, s in iupac())[inp['symbol']]
         bad = [(p, d) for p, d, ok in lookup_predicates(z, inp['symbol']) if not ok and p == inp['predicate']]
         return bool(bad), f'{inp["predicate"]}({inp["symbol"]}, Z={z}) ' + ('fails' if bad else 'holds')
+    if inp['predicate'] in ('dynamic-variant-lookup', 'query-variant-lookup'):
+        z = inp.get('z') or dict((s, z) for z, s in iupac())[inp['symbol']]
+        bad = [(p, d) for p, d, ok in variant_predicates(z, inp['symbol']) if not ok and p == inp['predicate']]
+        return bool(bad), f'{inp["predicate"]}({inp["symbol"]}) ' + ('fails' if bad else 'holds')
+    if inp['predicate'] in ('pack-roundtrip-isotope', 'matcher-finds-isotope'):
+        bad = [(p, d) for p, d, ok in pack_matcher_predicates(inp['symbol']) if not ok and p == inp['predicate']]
+        return bool(bad), f'{inp["predicate"]} on {inp["symbol"]}: failing cases {bad}' if bad else f'{inp["predicate"]} holds for {inp["symbol"]}'
     if inp['predicate'] == 'agrees-with-standard':
         from chython.periodictable import Element
         std = dict(iupac())
